@@ -232,7 +232,9 @@ def gen_case(rng, tier):
         # a source that maps several logical elements onto one address: sliding windows (equal or small strides in
         # different dimensions)
         shape = shape_of(tb)
-        ds = [rng.choice([1, 1, n_, 2, 3]) for n_ in shape]  # (stride 0 is left out: TSL has no zero steps)
+        if rng.random() < 0.4:
+            case["broadcast"] = True
+        ds = [rng.choice([1, 1, n_, 2, 3] + ([0, 0] if case.get("broadcast") else [])) for n_ in shape]  # stride 0: a broadcast dimension
         case["sides"][0] = {"kind": "strided", "off": rng.choice([0, 0, 3]), "dynmarks": [], "dimstrides": ds, "steps": strided_steps(tb, ds),
                             "dyn_stride": [False] * rank, "dyn_off": False, "overlapping": True}
     case["env"] = {"base": [0x1000 + 8 * rng.randrange(16), 0x20000 + 8 * rng.randrange(16)], "seed": rng.randrange(1 << 30), "shuffle": rng.random() < 0.8, "dyn_bound": rng.choice([1, 2, 3, 4])}
